@@ -243,6 +243,16 @@ def check_property(pid, tier, seed):
     replay_paths = []
     if undecided or und:
         exit_code = 2
+    # a failed obligation whose counterexample was replayed on the real crates and reproduced there is a violation
+    # whatever else is undecided (a timeout elsewhere cannot make the concrete failing input go away)
+    confirmed = [o for o in violations if (o.get("counterexample") or {}).get("replayed_on_real_code", {}).get("rc") == 1]
+    if confirmed and (undecided or und):
+        exit_code = 1
+        for o in confirmed:
+            rp = write_replay(pid, o, results)
+            replay_paths.append(rp)
+            lines.append(f"VIOLATION property={pid} replay={rp}")
+        violations = [o for o in violations if o not in confirmed]
     if violations and not undecided:
         exit_code = 1
         for o in violations:
@@ -288,10 +298,13 @@ def check_property(pid, tier, seed):
     }
     with open(os.path.join(EVID, pid + ".json"), "w") as fh:
         json.dump(ev, fh, indent=1)
-    if exit_code == 2:
+    if undecided or und:
         with open(os.path.join(EVID, pid + ".undecided.txt"), "w") as fh:
             fh.write("\n".join(undecided + [o["name"] for o in und]))
+    if exit_code == 2:
         print(f"UNDECIDED property={pid}: " + "; ".join((undecided + [o['name'] for o in und])[:4]))
+    elif exit_code == 1 and (undecided or und):
+        print(f"note: other obligations of {pid} are undecided: " + "; ".join((undecided + [o['name'] for o in und])[:3]))
     elif exit_code == 0:
         print(f"OK property={pid} tier={tier} obligations={ev['coverage']['obligations']} discharged={len(discharged)} bounded={len(bounded)} known_findings={len(known_hits)} wall={wall:.1f}s")
     return exit_code
